@@ -73,3 +73,20 @@ func debugStaking(path string) {
 		}
 	}
 }
+
+// debugK5: run a scenario and print status of each tx of the last block and k5's storage slots.
+func debugK5(path string) {
+	quiet.Silence()
+	chainkit.Init()
+	body, _, _ := vh.ReadReplay(path)
+	rr, err := execScenario(body, 4)
+	if err != nil {
+		fmt.Println(err)
+		return
+	}
+	if rr.viol != nil {
+		fmt.Println("viol:", rr.viol.what)
+	}
+	last := rr.blocks[len(rr.blocks)-1]
+	fmt.Println("included", len(last.block.Transactions()), "failed", last.nFailed, "skipped", last.nSkipped, "gasUsed", last.block.GasUsed())
+}
